@@ -4,7 +4,7 @@ import Nstd.Generated.Sha256Tables
   `include/nstd/Crypto/Sha256.hpp`.
 
   Translated (tools/gen_sha.py, regenerated from the current sources on every run):
-  `K`, `H0`, `count0`, `rotrFixed S0 S1 s0 s1 Ch Maj`, and the statement macros
+  `K`, `H0`, `count0`, `blockSize`, `digestSize`, `hmacOpad`, `hmacIpad`, `rotrFixed S0 S1 s0 s1 Ch Maj`, and the statement macros
   `blk0 blk2 R` (as transformers of the local arrays `T`, `W`).
   Hand written here: the control flow around them, mirroring the C++ code line by line
   (copy loops, the `j`/`i` loops of `Transform`, `WriteByteBlock`, the byte loop of `update`,
@@ -114,19 +114,21 @@ def hash (data : List UInt8) : List UInt8 :=
   (finalize (update init data)).1
 
 /-- `Sha256::hmac(key, keySize, message, messageSize, result)`; one hasher object is used for
-the key digest, the inner and the outer pass (it is reset by each `finalize`) -/
+the key digest, the inner and the outer pass (it is reset by each `finalize`).  `blockSize`,
+`digestSize` and the two pad bytes are the generated constants of the header; `32`/`64` are the
+literals the code uses (`Memory::zero(hashKey + 32, 32)`, `for(int i = 0; i < 64; ++i)`). -/
 def hmac (key message : List UInt8) : List UInt8 :=
   let sha := init
   let k : Sha × List UInt8 :=
-    if key.length > 64 then
+    if key.length > blockSize then
       let f := finalize (update sha key)
       (f.2, f.1 ++ List.replicate 32 0)
     else
-      (sha, key ++ (if key.length < 64 then List.replicate (64 - key.length) 0 else []))
+      (sha, key ++ (if key.length < blockSize then List.replicate (blockSize - key.length) 0 else []))
   let sha := k.1
   let hashKey := k.2
-  let oKeyPad := (List.range 64).map fun i => hashKey.getD i 0 ^^^ 0x5c
-  let iKeyPad := (List.range 64).map fun i => hashKey.getD i 0 ^^^ 0x36
+  let oKeyPad := (List.range 64).map fun i => hashKey.getD i 0 ^^^ hmacOpad
+  let iKeyPad := (List.range 64).map fun i => hashKey.getD i 0 ^^^ hmacIpad
   let sha := update sha iKeyPad
   let sha := update sha message
   let f := finalize sha
